@@ -12,7 +12,7 @@ MACROS = [(0, 0), (0, 1), (0, 2), (1, 0), (2, 0), (2, 1), (3, 0)]   # (macro set
 KVS = gen.kv_lists(2)
 KVS_CORE = [KVS.index([]), KVS.index(['k1 = 1']), KVS.index(['k1 = "a;b,c"', 'k2']), KVS.index(['k1:? = x', 'k2 = x'])]
 FILLCFG = [{}] + [{"*": f} for f in gen.FILLERS[1:]] + [{s: f} for s in gen.SITES for f in gen.FILLERS[1:]]
-PREFIX = ['', 'fn f() {\n', '// é名\n\n']
+PREFIX = ['', 'fn f() {\n', '// é名\n\n', '\ufeff', '\ufefffn f() {\n']
 
 DIMS = [
     ("macro", MACROS, [0, 3, 5, 6], 0),
